@@ -1,6 +1,7 @@
 """Shared analysis context: everything a rule may ask for, built lazily once per process."""
 from __future__ import annotations
 
+import os
 import warnings
 from typing import Dict, Optional
 
@@ -11,7 +12,16 @@ class Ctx:
     def __init__(self, repo: str = "/repo", overlay: Optional[Dict[str, str]] = None, tier: str = "quick"):
         with warnings.catch_warnings():
             warnings.simplefilter("ignore")
-            self.p = Program(repo, overlay)
+            self.p_raw = Program(repo, overlay)
+            self.normal_form = {"inlined_calls": 0, "helpers": [], "removed": []}
+            self.p = self.p_raw
+            if os.environ.get("SA_NO_NORMALISE") != "1":
+                from .normalise import normalise
+
+                trees, report = normalise(self.p_raw)
+                self.normal_form = report
+                if trees:
+                    self.p = Program(repo, overlay, trees=trees)
         self.tier = tier
         self._cg = None
         self._ef = None
